@@ -50,7 +50,7 @@ BRIDGE_FUNCS = {
     "C12": ["to_snake_case", "to_valid_module_name", "fix_name_segment", "fix_field_path", "client_method_name"],
     "C14": ["coerce_response_name", "client_method_name", "to_snake_case", "fix_whitespace"],
     "C15": ["to_snake_case", "make_private", "client_method_name", "service_client_name", "service_async_client_name", "new_naming_versioned_module_name"],
-    "C16": ["make_private", "client_method_name"],
+    "C16": ["make_private", "client_method_name", "service_client_name", "service_async_client_name"],
     "C17": ["fix_name_segment", "fix_field_path"],
     "C20": ["is_list_item", "get_subsequent_line_indentation_level", "fix_whitespace", "metadata_doc"],
 }
